@@ -186,6 +186,9 @@ CountViol(p, inp, outs) ==
 (*  fired_late     "no later than the first watermark beyond it": the      *)
 (*                 window end is at most min ts + size; a watermark above  *)
 (*                 that consumed at an EARLIER step is beyond the end      *)
+(*  (the code fires a slot on the first watermark >= its end - before the  *)
+(*  fix of F4 on the first one > its end; both lie inside these two bounds, *)
+(*  the difference is a C06 matter: LateResultViol below)                  *)
 (* Lost / cover are judged for complete iterations only.                   *)
 (***************************************************************************)
 EventKI(p, inp, outs, key, it, rs) ==
